@@ -2033,3 +2033,135 @@ Proof.
   pose proof (Hpos _ Hb1'). pose proof (Hpos _ Hb2').
   repeat match goal with |- context [?x =? ?y] => replace (x =? y) with false by lia end. auto.
 Qed.
+
+(* ================================================================================================ *)
+(* H. final round: pointer on the separator, RESTORE to a missing line, empty statements *)
+
+(* C22d: after a numeric READ the pointer stands ON the separator behind the entry (blanks behind the number are
+   skipped), and in front of the next entry *)
+Lemma read_num_on_sep numok setvar p cur dp ln it its e tgt :
+  Inv p dp ln (it :: its) e -> is_str tgt = false -> it_numeric it = true ->
+  numok (it_word it) = Ok tt -> setvar tgt (VNum (it_word it)) = Ok tt ->
+  exists dp', read_one numok setvar p cur dp tgt = Done (VNum (it_word it)) dp' /\
+              seek p dp' = it_rest it /\ at_sep (seek p dp') = true /\
+              (seek p dp' = [] \/ exists c r, seek p dp' = c :: r /\ (c = 0 \/ c = 58 \/ c = 44)) /\
+              Inv p dp' (it_line it) its e.
+Proof.
+  unfold Inv. intros H Ht Hn Hok1 Hok2.
+  pose proof H as H0. apply ia_step in H as [c [r [s2 [HL [HT [HS [HN [Hnum HI]]]]]]]].
+  rewrite Hn in Hnum. symmetry in Hnum.
+  destruct (num_str_agree _ _ _ _ HN Hnum) as [v Hv]. rewrite HS in Hv. inversion Hv; subst s2.
+  exists (pos_of p (it_rest it)). rewrite read_one_eq.
+  destruct (look_stream _ (-1) _ _ _ HL) as [l2 HL2]. rewrite HL2, HT. cbv zeta.
+  rewrite Ht, HN, Hnum, Hok1, Hok2. simpl.
+  assert (Hsk : seek p (pos_of p (it_rest it)) = it_rest it).
+  { apply seek_pos. apply str_slot_sfx in HS. apply look_sfx in HL.
+    eapply sfx_trans; [exact HS|]. eapply sfx_trans; [apply skip_blank_sfx|].
+    eapply sfx_trans; [apply sfx_cons|]. eapply sfx_trans; [exact HL | apply seek_sfx]. }
+  rewrite Hsk. repeat split; auto. apply at_sep_cases. exact Hnum.
+Qed.
+
+(* the same for a string READ *)
+Lemma read_str_on_sep numok setvar p cur dp ln it its e tgt :
+  Inv p dp ln (it :: its) e -> is_str tgt = true -> setvar tgt (VStr (it_str it)) = Ok tt ->
+  exists dp', read_one numok setvar p cur dp tgt = Done (VStr (it_str it)) dp' /\
+              at_sep (seek p dp') = true /\ Inv p dp' (it_line it) its e.
+Proof.
+  unfold Inv. intros H Ht Hok.
+  apply ia_step in H as [c [r [s2 [HL [HT [HS [HN [Hnum HI]]]]]]]].
+  exists (pos_of p s2). rewrite read_one_eq.
+  destruct (look_stream _ (-1) _ _ _ HL) as [l2 HL2]. rewrite HL2, HT. cbv zeta. rewrite Ht, HS, Hok. simpl.
+  assert (Hsk : seek p (pos_of p s2) = s2).
+  { apply seek_pos. pose proof (str_slot_sfx _ _ _ HS) as H1. apply look_sfx in HL.
+    eapply sfx_trans; [exact H1|]. eapply sfx_trans; [apply skip_blank_sfx|].
+    eapply sfx_trans; [apply sfx_cons|]. eapply sfx_trans; [exact HL | apply seek_sfx]. }
+  rewrite Hsk. repeat split; auto. eapply str_slot_some_sep. exact HS.
+Qed.
+
+(* C22e *)
+Lemma restore_stmt_missing ls n tbl dp :
+  forallb line_ok ls = true -> ascending (-1) ls = true -> Permutation tbl (table_of ls 0) ->
+  (forall l, In l ls -> l_num l <> n) -> n <> 65536 ->
+  restore_stmt tbl dp (Some n) = (Some data_UNDEFINED_LINE_NUMBER, dp).
+Proof.
+  intros Hok Hasc Hperm H1 H2. unfold restore_stmt.
+  now rewrite (restore_undefined_thm ls n tbl Hok Hasc Hperm H1 H2).
+Qed.
+
+Lemma restore_stmt_any tbl dp arg :
+  match restore_stmt tbl dp arg with
+  | (None, d) => restore tbl arg = Ok d
+  | (Some e, d) => d = dp
+  end.
+Proof. unfold restore_stmt. destruct (restore tbl arg); auto. Qed.
+
+(* C22c: empty statements *)
+Lemma enc_blank_lexemes bl : flat_map enc_lex (map LCh bl) = bl.
+Proof. induction bl as [|c bl IH]; simpl; congruence. Qed.
+
+Lemma blank_lex_ok bl : all_blank bl = true -> forallb lex_ok (map LCh bl) = true.
+Proof.
+  induction bl as [|c bl IH]; simpl; [reflexivity|]. intros H. apply andb_true_iff in H as [H1 H2].
+  rewrite (IH H2), andb_true_r. apply is_blank_spec in H1. destruct H1 as [-> | [-> | ->]]; reflexivity.
+Qed.
+
+Lemma empty_stmt_ok last bl : all_blank bl = true -> stmt_ok last (SOther (map LCh bl) TNone) = true.
+Proof.
+  intros H. simpl. rewrite (blank_lex_ok bl H). simpl. rewrite enc_blank_lexemes, app_nil_r.
+  rewrite <- (app_nil_r bl), skip_blank_app_blank by exact H. reflexivity.
+Qed.
+
+Lemma stmts_ok_cons2 a b r : stmts_ok (a :: b :: r) = stmt_ok false a && stmts_ok (b :: r).
+Proof. reflexivity. Qed.
+
+Lemma stmts_ok_cons_ne x y : y <> [] -> stmts_ok (x :: y) = stmt_ok false x && stmts_ok y.
+Proof. destruct y; [congruence | reflexivity]. Qed.
+
+Lemma stmts_ok_insert e : forall a b, b <> [] -> stmt_ok false e = true ->
+  stmts_ok (a ++ b) = true -> stmts_ok (a ++ e :: b) = true.
+Proof.
+  induction a as [|x a IH]; intros b Hb He H.
+  - cbn [app] in *. rewrite stmts_ok_cons_ne by exact Hb. now rewrite He.
+  - cbn [app] in *.
+    assert (N1 : a ++ b <> []) by (intros E; apply app_eq_nil in E as [_ E]; congruence).
+    assert (N2 : a ++ e :: b <> []) by (intros E; apply app_eq_nil in E as [_ E]; discriminate).
+    rewrite stmts_ok_cons_ne in H by exact N1. apply andb_true_iff in H as [H1 H2].
+    rewrite stmts_ok_cons_ne by exact N2. rewrite H1. simpl. apply IH; assumption.
+Qed.
+
+Lemma with_empty_ok l i bl :
+  line_ok l = true -> all_blank bl = true -> (i < length (l_stmts l))%nat -> line_ok (with_empty l i bl) = true.
+Proof.
+  intros Hok Hbl Hi. unfold line_ok in *. simpl.
+  apply andb_true_iff in Hok as [Hok B4]. apply andb_true_iff in Hok as [Hok B3].
+  apply andb_true_iff in Hok as [Hok B2]. apply andb_true_iff in Hok as [Hok B1].
+  apply andb_true_iff in Hok as [Hlk Hst]. rewrite Hlk, B1, B2, B3, B4, !andb_true_r. simpl.
+  apply stmts_ok_insert.
+  - intros E. apply (f_equal (@length stmt)) in E. rewrite skipn_length in E. simpl in E. lia.
+  - apply empty_stmt_ok. exact Hbl.
+  - rewrite firstn_skipn. exact Hst.
+Qed.
+
+Lemma with_empty_entries l i bl : line_entries (with_empty l i bl) = line_entries l.
+Proof.
+  unfold line_entries, with_empty, l_num. simpl. f_equal.
+  rewrite flat_map_app. simpl. rewrite <- flat_map_app, firstn_skipn. reflexivity.
+Qed.
+
+Lemma empty_statement_thm ls1 l ls2 trailer i bl :
+  forallb line_ok (ls1 ++ l :: ls2) = true -> (length trailer <= 2)%nat ->
+  all_blank bl = true -> (i < length (l_stmts l))%nat ->
+  forallb line_ok (ls1 ++ with_empty l i bl :: ls2) = true /\
+  prog_entries (ls1 ++ with_empty l i bl :: ls2) = prog_entries (ls1 ++ l :: ls2) /\
+  exists its, data_items (enc_prog (ls1 ++ with_empty l i bl :: ls2) trailer) = (its, EndOfData) /\
+              Forall2 item_rel (prog_entries (ls1 ++ l :: ls2)) its.
+Proof.
+  intros Hok Ht Hbl Hi.
+  assert (Hok' : forallb line_ok (ls1 ++ with_empty l i bl :: ls2) = true).
+  { rewrite forallb_app in *. simpl in *. apply andb_true_iff in Hok as [H1 H2]. apply andb_true_iff in H2 as [H2 H3].
+    rewrite H1, H3, (with_empty_ok l i bl H2 Hbl Hi). reflexivity. }
+  assert (Hent : prog_entries (ls1 ++ with_empty l i bl :: ls2) = prog_entries (ls1 ++ l :: ls2)).
+  { unfold prog_entries. rewrite !flat_map_app. simpl. now rewrite with_empty_entries. }
+  split; [exact Hok'|]. split; [exact Hent|].
+  rewrite <- Hent. apply program_order_thm; assumption.
+Qed.
